@@ -37,7 +37,9 @@ func GetPublicIP(ctx context.Context, client *http.Client, backoffPolicy *backof
 }
 
 func getPublicIPUsingIPChecker(ctx context.Context, client *http.Client, backoffPolicy *backoff.ExponentialBackOff, dest string) (net.IP, error) {
-	req, err := http.NewRequest("GET", dest, nil)
+	ctxWithTimeout, cancel := context.WithTimeout(ctx, ipCheckerCallTimeout)
+	defer cancel()
+	req, err := http.NewRequestWithContext(ctxWithTimeout, "GET", dest, nil)
 	if err != nil {
 		return nil, errors.New("failed to create new request: " + err.Error())
 	}
@@ -45,8 +47,6 @@ func getPublicIPUsingIPChecker(ctx context.Context, client *http.Client, backoff
 	operation := func() (net.IP, error) {
 		return handleRequest(client, req)
 	}
-	ctxWithTimeout, cancel := context.WithTimeout(ctx, ipCheckerCallTimeout)
-	defer cancel()
 	result, err := backoff.Retry(ctxWithTimeout, operation, backoff.WithBackOff(backoffPolicy))
 	if err != nil {
 		return nil, errors.New("backoff retry error: " + err.Error())
